@@ -171,7 +171,7 @@ def repr_enum(ctx, F, cfg, path, spec):
         fn = F.trait_impl_fn("<%s as core::convert::TryFrom<u8>>" % path, "try_from")
         if ctx.oblige("C18|num|%s|try_from|impl" % short, fn is not None, "anchor missing: TryFrom<u8> for " + short, cfg=cfg):
             try:
-                m, rows_ = T.conversion_table(fn, F)
+                m, rows_ = T.byte_table(fn, F)
                 for b in range(256):
                     r = T.first_match(rows_, b)
                     wantname = next((n for n, v in want.items() if v == b), None)
